@@ -1,4 +1,258 @@
-/-! native driver `C13` (stub; replaced by the area's real driver) -/
-def main (_args : List String) : IO UInt32 := do
-  IO.println "stub"
+import PPLV.Value.Model
+import PPLV.Value.Judge
+
+/-!
+# `pplv_c13` — replays a pool journal of `harness/c13_values.cc` on the value specification
+
+stdin, one event per line:
+```
+hist <id> <family> <dim>
+step <kind> <name> <ndst> d… <nargs> a… [# info]     kind: new copy assign swap op query recycle
+exc <real|-> <copies|->
+res <value>                 result of the operation run on distinct copies (oracle of the uninterpreted f)
+carg <slot> <value>         copy of a const argument after the run on copies
+qres <k> r1…rk s1…sk        query answer of the real run and of the run on copies
+obs <slot> <value>          every pool member after the step
+crash <signal> | end
+```
+The step is turned into a `PPLV.Value.Spec.Step` (`Spec.init / copy / swap / op / query / recycle`),
+the specification pool is advanced with `Spec.step`, and every observation is compared with the
+pool by the exact judge `valEq` (K1 / K2).  stdout: `ok n` | `skip n why` | `MISMATCH n obligation detail`,
+`n` the line number.  Obligations: `frame` (a member that is neither destination nor argument),
+`const_arg` (an argument that is not a destination), `copy`, `assign`, `self_assign`, `swap`,
+`self_swap`, `alias` (`x.op(x)`, one object in two positions: result = result on equal copies),
+`op_on_copies` (no aliasing: the originals and their copies behave alike), `const_arg_copy`,
+`alias_query` / `copy_query`, `exc_consistency`, `recycle`, `new`, `crash`.
+-/
+open PPLV PPLV.Value
+
+structure Obs where
+  raw : List String
+  v : Value
+deriving Inhabited
+
+def Obs.unknown : Obs := ⟨[], .unknown⟩
+
+/-- exact judge, with a syntactic fast path -/
+def obsEq (a b : Obs) : Bool := (a.raw == b.raw && !a.raw.isEmpty) || valEq a.v b.v
+
+/-! ### value parser -/
+def parseCg (n : Nat) (ts : List String) : Lattice.Cg × List String :=
+  match ts with
+  | k :: rest =>
+    let (cf, rest') := Lin.takeInts n rest
+    match rest' with
+    | m :: rest'' => ({ a := cf.map (fun (i : Int) => (i : Rat)), b := (Lin.tokInt k : Rat), f := (Lin.tokInt m : Rat) }, rest'')
+    | [] => ({ a := [], b := 0, f := 0 }, [])
+  | [] => ({ a := [], b := 0, f := 0 }, [])
+
+def parseCgs (n : Nat) : Nat → List String → List Lattice.Cg → List Lattice.Cg × List String
+  | 0, ts, acc => (acc.reverse, ts)
+  | k+1, ts, acc => let (c, ts') := parseCg n ts; parseCgs n k ts' (c :: acc)
+
+/-- `P n <cs>` | `G n E` | `G n m <cg>*` | `T k tok*` -/
+def parseAtom (ts : List String) : Value × List String :=
+  match ts with
+  | "P" :: n :: rest =>
+    let nn := Lin.tokNat n
+    let (cs, rest') := Lin.parseCS nn rest
+    (.poly nn cs, rest')
+  | "G" :: n :: "E" :: rest => (.grid (Lin.tokNat n) none, rest)
+  | "G" :: n :: m :: rest =>
+    let nn := Lin.tokNat n
+    let (cgs, rest') := parseCgs nn (Lin.tokNat m) rest []
+    (.grid nn (some cgs), rest')
+  | "T" :: k :: rest => let kk := Lin.tokNat k; (.text (rest.take kk), rest.drop kk)
+  | _ => (.unknown, [])
+
+def parseDisjuncts : Nat → List String → List (List Lin.Con) → Option (List (List Lin.Con)) × List String
+  | 0, ts, acc => (some acc.reverse, ts)
+  | k+1, ts, acc =>
+    match parseAtom ts with
+    | (.poly _ cs, ts') => parseDisjuncts k ts' (cs :: acc)
+    | (_, ts') => (none, ts')
+
+def parseVal1 (ts : List String) : Value × List String :=
+  match ts with
+  | "S" :: n :: k :: rest =>
+    match parseDisjuncts (Lin.tokNat k) rest [] with
+    | (some ds, rest') => (.pset (Lin.tokNat n) ds, rest')
+    | (none, rest') => (.unknown, rest')
+  | _ => parseAtom ts
+
+def parseVal (ts : List String) : Value :=
+  match ts with
+  | "X" :: rest =>
+    let (a, rest') := parseVal1 rest
+    let (b, _) := parseVal1 rest'
+    .prod a b
+  | _ => (parseVal1 ts).1
+
+def parseObs (ts : List String) : Obs := ⟨ts, parseVal ts⟩
+
+/-! ### state -/
+structure Pending where
+  ln : Nat
+  kind : String
+  name : String
+  dsts : List Nat
+  args : List Nat
+  res : Option Obs := none
+  excR : String := "-"
+  excC : String := "-"
+  finalized : Bool := false
+  havoc : List Nat := []
+
+structure St where
+  pool : Spec.Pool Obs := fun _ => Obs.unknown
+  pend : Option Pending := none
+  nOk : Nat := 0
+  nBad : Nat := 0
+  nSkip : Nat := 0
+  maxSize : Nat := 400
+
+abbrev M := StateT St IO
+
+def ok (ln : Nat) : M Unit := do
+  modify fun s => { s with nOk := s.nOk + 1 }
+  IO.println s!"ok {ln}"
+def bad (ln : Nat) (obl what : String) : M Unit := do
+  modify fun s => { s with nBad := s.nBad + 1 }
+  IO.println s!"MISMATCH {ln} {obl} {what}"
+def skip (ln : Nat) (why : String) : M Unit := do
+  modify fun s => { s with nSkip := s.nSkip + 1 }
+  IO.println s!"skip {ln} {why}"
+
+def hasDup : List Nat → Bool
+  | [] => false
+  | a :: as => as.contains a || hasDup as
+
+/-- the step of the value specification that a journal step denotes; second component: slots whose
+    new value the specification leaves open (exceptional exits, donors of recycling entry points) -/
+def specStep (p : Pending) : Spec.Step Obs × List Nat :=
+  let threw := p.excR != "-" || p.excC != "-"
+  if threw then (Spec.query p.args, p.dsts)
+  else
+    match p.kind, p.dsts, p.args, p.res with
+    | "new", [d], _, some r => (Spec.init d r, [])
+    | "copy", [d], [s], _ => (Spec.copy d s, [])
+    | "assign", [d], [s], _ => (Spec.copy d s, [])
+    | "swap", [a, b], _, _ => (Spec.swap a b, [])
+    | "op", [d], args, some r => (Spec.op d args (fun _ => r), [])
+    | "query", _, args, _ => (Spec.query args, [])
+    | "recycle", [d, e], args, some r => (Spec.recycle d e args (fun _ => r) (fun _ => Obs.unknown), [e])
+    | _, dsts, args, _ => (Spec.query args, dsts)
+
+def finalize : M Unit := do
+  let st ← get
+  match st.pend with
+  | some p =>
+    if !p.finalized then
+      let (s, hv) := specStep p
+      set { st with pool := Spec.step st.pool s, pend := some { p with finalized := true, havoc := hv } }
+  | none => pure ()
+
+def obligation (p : Pending) (slot : Nat) : String :=
+  if p.dsts.contains slot then
+    match p.kind with
+    | "copy" => "copy"
+    | "assign" => if p.name == "self_assign" then "self_assign" else "assign"
+    | "swap" => if p.name.startsWith "self_" then "self_swap" else "swap"
+    | "op" => if hasDup p.args then "alias" else "op_on_copies"
+    | "recycle" => "recycle"
+    | k => k
+  else if p.args.contains slot then "const_arg" else "frame"
+
+def short (ts : List String) : String := " ".intercalate (ts.take 60)
+
+def processLine (ln : Nat) (line : String) : M Unit := do
+  let ts := (line.trimAscii.toString.splitOn " ").filter (· ≠ "")
+  match ts with
+  | "hist" :: _ => set { (← get) with pool := (fun _ => Obs.unknown), pend := none }
+  | "step" :: kind :: name :: rest => do
+    finalize
+    let nm := [name]
+    let nums0 := rest
+    let nums := nums0.takeWhile (· ≠ "#")
+    match nums with
+    | nd :: r1 =>
+      let k := Lin.tokNat nd
+      let dsts := (r1.take k).map Lin.tokNat
+      match r1.drop k with
+      | na :: r2 =>
+        let args := (r2.take (Lin.tokNat na)).map Lin.tokNat
+        modify fun s => { s with pend := some { ln := ln, kind := kind, name := "_".intercalate nm, dsts := dsts, args := args } }
+      | [] => skip ln "parse"
+    | [] => skip ln "parse"
+  | ["exc", r, c] => do
+    match (← get).pend with
+    | some p =>
+      modify fun s => { s with pend := some { p with excR := r, excC := c } }
+      if r == c then ok ln else bad ln "exc_consistency" s!"step {p.name}: real run {r}, run on copies {c}"
+    | none => skip ln "no-step"
+  | "res" :: v => do
+    match (← get).pend with
+    | some p => modify fun s => { s with pend := some { p with res := some (parseObs v) } }
+    | none => skip ln "no-step"
+  | "carg" :: slot :: v => do
+    let st ← get
+    match st.pend with
+    | some p =>
+      let o := parseObs v
+      let cur := st.pool (Lin.tokNat slot)
+      if cur.v.size + o.v.size > st.maxSize && cur.raw != o.raw then skip ln "size"
+      else if obsEq cur o then ok ln
+      else bad ln "const_arg_copy" s!"step {p.name}: the copy of argument {slot} changed: was {short cur.raw} now {short v}"
+    | none => skip ln "no-step"
+  | "qres" :: k :: rest => do
+    let kk := Lin.tokNat k
+    let a := rest.take kk
+    let b := (rest.drop kk).take kk
+    match (← get).pend with
+    | some p =>
+      if a == b then ok ln
+      else bad ln (if hasDup p.args then "alias_query" else "copy_query") s!"{p.name}: real run {short a}, run on copies {short b}"
+    | none => skip ln "no-step"
+  | "obs" :: slot :: v => do
+    finalize
+    let st ← get
+    match st.pend with
+    | some p =>
+      let sl := Lin.tokNat slot
+      let o := parseObs v
+      let cur := st.pool sl
+      if p.havoc.contains sl then
+        set { st with pool := Spec.upd st.pool sl o }
+        skip ln "unspecified"
+      else
+        match o.v with
+        | .unknown => bad ln "parse" s!"slot {slot}: {short v}"
+        | _ =>
+          if cur.v.size + o.v.size > st.maxSize && cur.raw != o.raw then
+            set { st with pool := Spec.upd st.pool sl o }
+            skip ln "size"
+          else if obsEq cur o then ok ln
+          else
+            set { st with pool := Spec.upd st.pool sl o }
+            bad ln (obligation p sl) s!"step {p.kind} {p.name} dsts={p.dsts} args={p.args} slot {slot}: specification {short cur.raw} | observed {short v}"
+    | none => skip ln "no-step"
+  | "crash" :: sig => do
+    let nm := match (← get).pend with | some p => p.name | none => "?"
+    bad ln "crash" s!"{" ".intercalate sig} in step {nm}"
+  | "end" :: _ => finalize
+  | _ => pure ()
+
+partial def loop (h : IO.FS.Stream) (ln : Nat) : M Unit := do
+  let line ← h.getLine
+  if line.isEmpty then return
+  processLine ln line
+  loop h (ln + 1)
+
+def main (args : List String) : IO UInt32 := do
+  let maxSize := match args with
+    | ["--max-size", k] => k.toNat?.getD 400
+    | _ => 400
+  let stdin ← IO.getStdin
+  let ((), st) ← (loop stdin 1).run { maxSize := maxSize }
+  IO.println s!"summary ok={st.nOk} mismatch={st.nBad} skipped={st.nSkip}"
   return 0
